@@ -2212,7 +2212,7 @@ def legacy_g_jk(ctx, rep):
 
 
 def part_l(ctx, rep):
-    al.check_label_spans(ctx, rep, ctx.sub_rng('label-spans'), (1200 if ctx.tier == 'quick' else 25000) * ctx.scale)
+    al.check_label_spans(ctx, rep, ctx.sub_rng('label-spans'), (1200 if ctx.tier == 'quick' else 20000) * ctx.scale)
 
 
 LEGACY = [legacy_ad, legacy_e, legacy_g_jk, legacy_h, part_l]
